@@ -1,7 +1,7 @@
 (* C13 - property theorems only. *)
 From Coq Require Import Reals List.
 From Coquelicot Require Import Coquelicot.
-Require Import PV.Num PV.FitWrap PV.FitRate PV.Grad.
+Require Import PV.Num PV.TNum PV.gen.InterpGen PV.FitWrap PV.FitCert PV.FitRate PV.Grad PV.GradInterp.
 Import ListNotations.
 Local Open Scope R_scope.
 
@@ -49,16 +49,87 @@ Theorem C13_twice_nll_norm_chain : forall (m : R -> R) (dm x sigma : R), is_deri
             (2 * (/ (sigma * sigma)) * (m 0 - x) * dm).
 Proof. exact twice_nll_norm_chain. Qed.
 
-(* the gradient the check evaluates: for bins whose samples carry no histosys piece the rate is a + * expression of the
-   parameters and the dual evaluation of the rate model yields (rate, partial derivative along coordinate j).
-   partial: cells with histosys pieces additionally rest on the derivative of the interpolation code in the selected
-   regime (C03) and are covered by the correspondence only *)
-Theorem C13_rate_dual_is_derivative_partial : forall (x : list R) (j : nat) (cells : list (cell RNum)), List.Forall plain cells ->
+(* ---- interpolation pieces (GradInterp.v): every theorem is about the real instance of the definitions translated from
+   pyhf's source on this run (gen/InterpGen.v) ---- *)
+(* codes 2, 4p, 4: differentiable for every alpha, breakpoints +-1 / +-alpha0 included; on the breakpoints of code 4 the
+   polynomial's derivative equals the exponential's *)
+Theorem C13_dcode_smooth :
+  (forall lo nom hi a, is_derive (slow_code2 RT lo nom hi) a (dcode2 lo nom hi a)) /\
+  (forall lo nom hi a, is_derive (slow_code4p RT lo nom hi) a (dcode4p lo nom hi a)) /\
+  (forall a0 lo nom hi, 0 < a0 -> 0 < lo -> 0 < nom -> 0 < hi -> forall a, is_derive (slow_code4 RT a0 lo nom hi) a (dcode4 a0 lo nom hi a)) /\
+  (forall a0 lo nom hi, 0 < a0 -> dcode4 a0 lo nom hi a0 = ln (hi / nom) * exp (a0 * ln (hi / nom)) /\
+                                  dcode4 a0 lo nom hi (- a0) = - ln (lo / nom) * exp (a0 * ln (lo / nom))).
+Proof. exact (conj dcode2_derive (conj dcode4p_derive (conj dcode4_derive dcode4_at_breakpoints))). Qed.
+(* codes 0, 1: differentiable for every alpha <> 0; at the kink the two one-sided derivatives; the branch the comparison
+   `0 < alpha` selects there is the alpha <= 0 one (dcodeK 0 is the LEFT derivative); no derivative exists when they differ *)
+Theorem C13_dcode0 : forall lo nom hi,
+  (forall a, a <> 0 -> is_derive (slow_code0 RT lo nom hi) a (dcode0 lo nom hi a)) /\
+  right_derive (slow_code0 RT lo nom hi) 0 (hi - nom) /\ left_derive (slow_code0 RT lo nom hi) 0 (nom - lo) /\
+  dcode0 lo nom hi 0 = nom - lo /\
+  (hi - nom <> nom - lo -> forall l, ~ is_derive (slow_code0 RT lo nom hi) 0 l).
+Proof. exact (fun lo nom hi => conj (dcode0_derive lo nom hi) (conj (dcode0_right lo nom hi) (conj (dcode0_left lo nom hi)
+              (conj (proj1 (dcode0_at_kink lo nom hi)) (code0_kink lo nom hi))))). Qed.
+Theorem C13_dcode1 : forall lo nom hi, 0 < lo -> 0 < nom -> 0 < hi ->
+  (forall a, a <> 0 -> is_derive (slow_code1 RT lo nom hi) a (dcode1 lo nom hi a)) /\
+  right_derive (slow_code1 RT lo nom hi) 0 (ln (hi / nom)) /\ left_derive (slow_code1 RT lo nom hi) 0 (- ln (lo / nom)) /\
+  dcode1 lo nom hi 0 = - ln (lo / nom) /\
+  (ln (hi / nom) <> - ln (lo / nom) -> forall l, ~ is_derive (slow_code1 RT lo nom hi) 0 l).
+Proof. exact (fun lo nom hi Hlo Hnom Hhi => conj (dcode1_derive lo nom hi Hlo Hnom Hhi) (conj (dcode1_right lo nom hi Hlo Hnom Hhi)
+              (conj (dcode1_left lo nom hi Hlo Hnom) (conj (proj1 (dcode1_at_kink lo nom hi Hlo Hnom)) (code1_kink lo nom hi Hlo Hnom Hhi))))). Qed.
+
+(* the histosys pieces of the rate model the check executes are the translated codes, and their dual evaluation is dcodeK *)
+Theorem C13_delta_dual_is_dcode : forall (h : hsys RNum) nom a da,
+  delta RNum h nom a = slow_of h nom a /\
+  delta (DualNum RNum) (inj_hsys RNum h) (inj RNum nom) (a, da) = (delta RNum h nom a, ddelta h nom a * da).
+Proof. exact (fun h nom a da => conj (delta_slow h nom a) (delta_dual h nom a da)). Qed.
+
+(* the gradient the check evaluates (full version of the former C13_rate_dual_is_derivative_partial): for bins whose cells carry
+   histosys pieces of codes 0, 2, 4p the dual evaluation of the rate model yields (rate, partial derivative along coordinate j)
+   at every point where that derivative exists - every regime, the breakpoints +-1 included; the only points without a
+   derivative are kinks of code-0 pieces driven by parameter j, and there (as everywhere) the same number is the left derivative *)
+Theorem C13_rate_dual_is_derivative : forall (x : list R) (j : nat) (cells : list (cell RNum)), kink_free x j cells ->
   fst (rate_dual RNum x j cells) = bin_rate RNum x cells /\
   is_derive (fun t => bin_rate RNum (moved_from 0 j t x) cells) 0 (snd (rate_dual RNum x j cells)).
-Proof. exact rate_dual_is_derivative_partial. Qed.
+Proof. exact rate_dual_is_derivative. Qed.
+Theorem C13_rate_dual_left_derivative : forall (x : list R) (j : nat) (cells : list (cell RNum)),
+  left_derive (fun t => bin_rate RNum (moved_from 0 j t x) cells) 0 (snd (rate_dual RNum x j cells)).
+Proof. exact rate_dual_left_derivative. Qed.
+(* cells extended by normsys factors (codes 1 and 4): product / sum rule with dcodeK at the cell's alpha *)
+Theorem C13_xrate_dual_is_derivative : forall (x : list R) (j : nat) (cells : list xcell), xwf cells -> xkink_free x j cells ->
+  fst (xrate_dual x j cells) = xbin_rate x cells /\
+  is_derive (fun t => xbin_rate (moved_from 0 j t x) cells) 0 (snd (xrate_dual x j cells)).
+Proof. exact xrate_dual_is_derivative. Qed.
+Theorem C13_xrate_dual_left_derivative : forall (x : list R) (j : nat) (cells : list xcell), xwf cells ->
+  left_derive (fun t => xbin_rate (moved_from 0 j t x) cells) 0 (snd (xrate_dual x j cells)).
+Proof. exact xrate_dual_left_derivative. Qed.
+(* the whole objective (2 * nll = twice_nll up to a parameter-independent constant): Grad.grad_coord - the text executed over
+   Qc duals - and its extension by normsys factors, evaluated through interval goals *)
+Theorem C13_grad_coord_is_derivative : forall (M : model RNum) (x : list R) (j : nat), (j < length x)%nat -> mpos M x ->
+  List.Forall (fun nb => kink_free x j (snd nb)) (m_bins RNum M) ->
+  is_derive (fun t => 2 * nllM M (moved_from 0 j t x)) 0 (grad_coord RNum M x j).
+Proof. exact grad_coord_is_derivative. Qed.
+Theorem C13_grad_coord_left_derivative : forall (M : model RNum) (x : list R) (j : nat), (j < length x)%nat -> mpos M x ->
+  left_derive (fun t => 2 * nllM M (moved_from 0 j t x)) 0 (grad_coord RNum M x j).
+Proof. exact grad_coord_left_derivative. Qed.
+Theorem C13_xgrad_is_derivative : forall (M : xmodel) (x : list R) (j : nat), xpos M x -> xmodel_wf M -> xmodel_kink_free M x j ->
+  is_derive (fun t => 2 * xnll M (moved_from 0 j t x)) 0 (xgrad M x j).
+Proof. exact xgrad_is_derivative. Qed.
+Theorem C13_xgrad_left_derivative : forall (M : xmodel) (x : list R) (j : nat), xpos M x -> xmodel_wf M ->
+  left_derive (fun t => 2 * xnll M (moved_from 0 j t x)) 0 (xgrad M x j).
+Proof. exact xgrad_left_derivative. Qed.
 
-Print Assumptions C13_rate_dual_is_derivative_partial.
+Print Assumptions C13_dcode_smooth.
+Print Assumptions C13_dcode0.
+Print Assumptions C13_dcode1.
+Print Assumptions C13_delta_dual_is_dcode.
+Print Assumptions C13_rate_dual_is_derivative.
+Print Assumptions C13_rate_dual_left_derivative.
+Print Assumptions C13_xrate_dual_is_derivative.
+Print Assumptions C13_xrate_dual_left_derivative.
+Print Assumptions C13_grad_coord_is_derivative.
+Print Assumptions C13_grad_coord_left_derivative.
+Print Assumptions C13_xgrad_is_derivative.
+Print Assumptions C13_xgrad_left_derivative.
 Print Assumptions C13_stitched_gradient.
 Print Assumptions C13_stitched_perturb.
 Print Assumptions C13_dual_is_derivative.
